@@ -128,6 +128,15 @@ impl Timer {
         F: 'static + FnMut() + Send,
     {
         let delay_ms = delay.num_milliseconds();
+        {
+            // The timer crate computes `Utc::now() + delay` (chrono panics when that leaves the range of
+            // DateTime). Same arithmetic on the simulated clock: epoch 2026-01-01T00:00:00Z + now.
+            let now_ms = rec::with(|r| r.now) as i64;
+            let base = chrono::DateTime::<chrono::Utc>::from_timestamp(1_767_225_600 + now_ms / 1000, 0).expect("simulated date");
+            if base.checked_add_signed(delay).is_none() {
+                panic!("`DateTime + TimeDelta` overflowed");
+            }
+        }
         let timer = self.id;
         let (item, due) = rec::with(|r| {
             let item = r.next_item;
